@@ -478,7 +478,7 @@ func (st *runState) checkDocument(r *reqRec, add func(p, oracle, sig, detail str
 		return
 	}
 	switch rq.Kind {
-	case "labels", "label_values", "prom_labels", "prom_label_values", "tags", "tag_values", "series", "prom_series":
+	case "labels", "label_values", "prom_labels", "prom_label_values", "tags", "tag_values", "tags_v2", "tag_values_v2", "series", "prom_series":
 		// list endpoints: every served string exactly once, in the order served
 		var data []*sqlfake.Stmt
 		for _, s := range r.Stmts {
@@ -495,12 +495,27 @@ func (st *runState) checkDocument(r *reqRec, add func(p, oracle, sig, detail str
 				if arr, ok := m[key].([]any); ok {
 					for _, v := range arr {
 						if obj, isObj := v.(map[string]any); isObj {
+							if tv, ok := obj["value"]; ok && rq.Kind == "tag_values_v2" {
+								got = append(got, fmt.Sprint(tv))
+								continue
+							}
 							// series endpoints: one label set per element; compared as documents
 							c, _ := json.Marshal(obj)
 							got = append(got, string(c))
 							continue
 						}
 						got = append(got, fmt.Sprint(v))
+					}
+				}
+			}
+		}
+		if m, ok := doc.(map[string]any); ok {
+			if scopes, ok := m["scopes"].([]any); ok {
+				for _, sc := range scopes {
+					scm, _ := sc.(map[string]any)
+					tags, _ := scm["tags"].([]any)
+					for _, tg := range tags {
+						got = append(got, fmt.Sprint(tg))
 					}
 				}
 			}
